@@ -314,3 +314,23 @@ func (s ISet) count() int64 {
 	}
 	return n
 }
+
+// mapSmall applies f to every value of a finite set of at most 512
+// non-negative values and returns the exact image.
+func (s ISet) mapSmall(f func(int64) int64) (ISet, bool) {
+	if s.Empty() || s.Lo() < 0 || s.Hi() == posInf || s.count() > 512 {
+		return nil, false
+	}
+	var out []Iv
+	for _, iv := range s {
+		for v := iv.Lo; v <= iv.Hi; v++ {
+			r := f(v)
+			if n := len(out); n > 0 && (out[n-1].Hi == r || out[n-1].Hi+1 == r) && out[n-1].Lo <= r {
+				out[n-1].Hi = r
+			} else {
+				out = append(out, Iv{r, r})
+			}
+		}
+	}
+	return normalize(out), true
+}
